@@ -37,6 +37,33 @@ PBlockSize(t) ==
 
 (* ---- block hash field starting at 0-based offset `base`: returns
         [state, used, out (symbols), extra (characters removed by run collapsing)] ---- *)
+(* one step of the machine on character c; st = [index, seq, prev, out, extra, state] with
+   state = "" while running.  The whole field is a left fold of this step over the rest of the
+   text (after the machine has stopped the remaining characters change nothing). *)
+PStep(n, normalize, strict, st, c) ==
+  IF st.state # "" THEN st
+  ELSE IF strict /\ st.index >= n
+  THEN (* the strict parser has read its N characters: it peeks at the next byte *)
+       IF c = COLON THEN [st EXCEPT !.state = "MetColon", !.index = @ + 1]
+       ELSE IF c = COMMA THEN [st EXCEPT !.state = "MetComma", !.index = @ + 1]
+       ELSE [st EXCEPT !.state = "OverflowError"]
+  ELSE IF ~IsB64(c)
+  THEN IF c = COLON THEN [st EXCEPT !.state = "MetColon", !.index = @ + 1]
+       ELSE IF c = COMMA THEN [st EXCEPT !.state = "MetComma", !.index = @ + 1]
+       ELSE [st EXCEPT !.state = "Base64Error"]
+  ELSE LET curr == B64Value(c) IN
+       IF normalize /\ curr = st.prev /\ st.seq + 1 >= MAXRUN
+       THEN [st EXCEPT !.seq = MAXRUN, !.extra = @ + 1, !.index = @ + 1]
+       ELSE LET st1 == IF normalize /\ curr = st.prev THEN [st EXCEPT !.seq = @ + 1]
+                       ELSE [st EXCEPT !.seq = 0, !.prev = curr] IN
+            IF ~strict /\ Len(st1.out) >= n THEN [st1 EXCEPT !.state = "OverflowError"]
+            ELSE [st1 EXCEPT !.out = Append(@, curr), !.index = @ + 1]
+PBlockHash(t, base, n, normalize, strict) ==
+  LET step(st, c) == PStep(n, normalize, strict, st, c)
+      r == FoldLeft(step, [index |-> 0, seq |-> 0, prev |-> -1, out |-> <<>>, extra |-> 0, state |-> ""],
+                    SubSeq(t, base + 1, Len(t)))
+  IN [state |-> IF r.state = "" THEN "MetEndOfString" ELSE r.state, used |-> r.index, out |-> r.out, extra |-> r.extra]
+(* the same machine by recursion over the position (reference; MCParser: PBlockHashDefsAgree) *)
 RECURSIVE PBlockHashLoop(_, _, _, _, _, _, _)
 PBlockHashLoop(t, base, n, normalize, strict, index, st) ==
   LET pos == base + index IN                   \* 0-based position in t
@@ -60,7 +87,7 @@ PBlockHashLoop(t, base, n, normalize, strict, index, st) ==
                  IF ~strict /\ Len(st1.out) >= n
                  THEN [state |-> "OverflowError", used |-> index, out |-> st1.out, extra |-> st1.extra]
                  ELSE PBlockHashLoop(t, base, n, normalize, strict, index + 1, [st1 EXCEPT !.out = Append(@, curr)])
-PBlockHash(t, base, n, normalize, strict) ==
+PBlockHashRec(t, base, n, normalize, strict) ==
   PBlockHashLoop(t, base, n, normalize, strict, 0, [seq |-> 0, prev |-> -1, out |-> <<>>, extra |-> 0])
 
 (* ---- the driver (hash_from_bytes_with_last_index_internal_template!) ---- *)
